@@ -892,6 +892,23 @@ def r5_local_only(P, rep, ctx):
     ok = bool(absolute) and not reachable_when_flag(gp, "local_only", [g.exit], extra=[[f"{pp}[0] == '/'", f"{pp}.startswith('/')"]])
     rep.check(ok, "C15.R5", fi.qual, "local_only: absolute paths are rejected by _guard_path", fi.loc(), construct="local_only test of _guard_path",
               message="_guard_path accepts absolute paths on a local_only node")
+    # the path that reaches the raw container is the path that was guarded: `_guard_path` judges the *spelling* it is given
+    # (relative = below this node), so a path re-written after the guard (joined with the node's name, normalised: 'x/../..'
+    # becomes a path outside the node) escapes a local_only node although the guard passed
+    fac = P.func(f"{W}._wrap_method")
+    wm = fac.nested.get("wrapped_method")
+    if wm is None:
+        raise AnalysisError("C15.R5: _wrap_method.wrapped_method not found")
+    wf = F(ctx, wm)
+    raw_sites = wf.call_sites("getattr(obj.__wrapped__, method)(__a, ___)")
+    guard_sites = wf.call_sites("obj._guard_path(__p)")
+    if not raw_sites or not guard_sites:
+        raise AnalysisError("C15.R5: raw call / _guard_path call of the method factory not found")
+    for ri, rc, rb in raw_sites:
+        used = wf.x_at(ri, rb["__a"])
+        guarded = [wf.x_at(gi, gb["__p"]) for gi, gc, gb in guard_sites if wf.hit_before(ri, nodes=[gi])]
+        rep.check(used in guarded, "C15.R5", wm.qual, "factory-made methods hand the raw container exactly the path that _guard_path accepted", wm.loc(rc), construct=f"raw path {used[:60]}",
+                  message=f"the factory-made container methods guard {guarded} but pass `{used[:80]}` to the raw object: a path re-written after the guard (e.g. normalised, '..' resolved) can name a node outside a local_only node")
     fi = P.func(f"{W}.MetadorNode.restrict")
     g = ctx.cfg(fi)
     rf = F(ctx, fi)
